@@ -289,14 +289,16 @@ def paramsFromIos (o : OStream) : Params × OStream :=
      width := o.width },                                                                          -- :111
    { o with width := 0 })                                                                         -- :114
 
-/-- `gmp_allocated_string t (result, d.size)` (gmp-impl.h, after /repo 2def0d3): the length is the formatted length, so the
-    whole text is written, NUL fill characters included (before that repair `len = strlen (str)` cut the text at the first
-    NUL and gave the free function the wrong size).  Kept as a named identity so that the layout statements read as before. -/
-def cstr (t : List Char) : List Char := t
+/-- `gmp_allocated_string t (result)` with the one-argument constructor (gmp-impl.h:4566-4570): `len = strlen (str)`, what
+    the text is cut to at its first NUL.  `operator<<` used it until /repo commit 2def0d3 (a NUL fill character cut the
+    output and the destructor freed with strlen+1 instead of the allocated size); it now passes `d.size`
+    (`gmp_allocated_string t (result, d.size)`, gmp-impl.h:4573-4577), so the whole text is written, NUL bytes included. -/
+def cstr (t : List Char) : List Char := t.takeWhile (· ≠ '\x00')
 
-/-- `__gmp_doprnt_integer_ostream (o, p, s)` (osdoprnti.cc:40-58): `p->prec = -1`, format, `o.write (t.str, t.len)` -/
+/-- `__gmp_doprnt_integer_ostream (o, p, s)` (osdoprnti.cc:40-59): `p->prec = -1`, format, `o.write (t.str, t.len)` with
+    `t.len = d.size` = all bytes formatted -/
 def doprntIntegerOstream (o : OStream) (p : Params) (s : List Char) : OStream :=
-  o.write (cstr (callsBytes (doprntInteger { p with prec := -1 } s)))
+  o.write (callsBytes (doprntInteger { p with prec := -1 } s))
 
 /-- `operator<< (ostream &o, mpz_srcptr z)` (osmpz.cc:31-38) -/
 def insertZ (o : OStream) (z : Int) : OStream :=
@@ -312,7 +314,7 @@ def insertQ (o : OStream) (n d : Int) : OStream :=
     formats of printf, not the "@%c%02d" of a hex stream, and no octal digits; `none` for those streams. -/
 def insertF (o : OStream) (fprec : Nat) (neg : Bool) (limbs : List Nat) (fexp : Int) : Option OStream :=
   let (p, o) := paramsFromIos o
-  if p.base = 10 then some (o.write (cstr (callsBytes (doprntMpf p fprec neg limbs fexp)))) else none
+  if p.base = 10 then some (o.write (callsBytes (doprntMpf p fprec neg limbs fexp))) else none
 
 /-! ## what a reader of the manual expects (specification side of the theorems) -/
 
